@@ -1436,6 +1436,92 @@ def gen_cache_skeleton():
     return "\n".join(out)
 
 
+
+# ==========================================================================================
+# datasets/_base.py -> Gen/Dispatch.v : how load_dataset turns a dataset name into a loader name; data home resolution
+# ==========================================================================================
+def _fstring_parts(e, where):
+    """f'<literal>{dataset.replace(a, b)}' -> (literal, a, b)"""
+    if not (isinstance(e, ast.JoinedStr) and len(e.values) == 2 and isinstance(e.values[0], ast.Constant) and isinstance(e.values[1], ast.FormattedValue)):
+        raise TranslateError("%s: loader name is not f'<prefix>{...}'" % where)
+    fv = e.values[1]
+    c = fv.value
+    if fv.conversion != -1 or fv.format_spec is not None or not (isinstance(c, ast.Call) and isinstance(c.func, ast.Attribute) and c.func.attr == "replace"
+            and isinstance(c.func.value, ast.Name) and c.func.value.id == "dataset" and len(c.args) == 2 and not c.keywords
+            and all(isinstance(a, ast.Constant) and isinstance(a.value, str) and len(a.value) == 1 for a in c.args)):
+        raise TranslateError("%s: formatted value is not dataset.replace(<char>, <char>)" % where)
+    return e.values[0].value, c.args[0].value, c.args[1].value
+
+
+@target("Dispatch")
+def gen_dispatch():
+    fname = "datasets/_base.py"
+    tree = ast.parse(_src(fname))
+    ld = _find_fun(tree, "load_dataset")
+    body = _body(ld)
+    sig = ";".join(_stmt_sig(s) for s in body)
+    if sig != "Import;if(assign:fun_name|assign:fun_name);Try;return":
+        raise TranslateError("%s:load_dataset: statement skeleton changed: %s" % (fname, sig))
+    if [a.arg for a in ld.args.args] != ["dataset", "unpack_dataset_columns"]:
+        raise TranslateError("%s:load_dataset: parameters changed" % fname)
+    test = body[1].test
+    if not (isinstance(test, ast.Call) and isinstance(test.func, ast.Attribute) and test.func.attr == "startswith" and _name_of(test.func.value) == "dataset"
+            and len(test.args) == 1 and isinstance(test.args[0], ast.Constant) and isinstance(test.args[0].value, str)):
+        raise TranslateError("%s:load_dataset: family test is not dataset.startswith(<literal>)" % fname)
+    fam = test.args[0].value
+    p1, a1, b1 = _fstring_parts(body[1].body[0].value, fname)
+    p2, a2, b2 = _fstring_parts(body[1].orelse[0].value, fname)
+    tr = body[2]
+    h = tr.handlers
+    if len(h) != 1 or _name_of(h[0].type) != "AttributeError" or len(h[0].body) != 1 or not isinstance(h[0].body[0], ast.Raise) \
+            or not isinstance(h[0].body[0].exc, ast.Call) or _name_of(h[0].body[0].exc.func) is None:
+        raise TranslateError("%s:load_dataset: unknown-name handling outside the grammar" % fname)
+    unknown_exn = h[0].body[0].exc.func.id
+    probe = tr.body[0].value if len(tr.body) == 1 and isinstance(tr.body[0], ast.Expr) else None
+    if not (isinstance(probe, ast.Call) and _name_of(probe.func) == "getattr" and _dotted(probe.args[0]) == "traffic_weaver.datasets._datasets"
+            and _name_of(probe.args[1]) == "fun_name"):
+        raise TranslateError("%s:load_dataset: lookup is not getattr(traffic_weaver.datasets._datasets, fun_name)" % fname)
+    ret = body[3].value
+    ok_ret = (isinstance(ret, ast.Call) and isinstance(ret.func, ast.Call) and _name_of(ret.func.func) == "getattr" and _name_of(ret.func.args[1]) == "fun_name"
+              and not ret.args and len(ret.keywords) == 1 and ret.keywords[0].arg == "unpack_dataset_columns" and _name_of(ret.keywords[0].value) == "unpack_dataset_columns")
+    if not ok_ret:
+        raise TranslateError("%s:load_dataset: the loader is not called as <loader>(unpack_dataset_columns=unpack_dataset_columns)" % fname)
+    # get_data_home
+    gh = _find_fun(tree, "get_data_home")
+    gb = _body(gh)
+    gsig = ";".join(_stmt_sig(s) for s in gb)
+    if gsig != "if(assign:data_home|);assign:data_home;call:makedirs;return":
+        raise TranslateError("%s:get_data_home: statement skeleton changed: %s" % (fname, gsig))
+    g0 = gb[0]
+    ok_test = isinstance(g0.test, ast.Compare) and _name_of(g0.test.left) == "data_home" and isinstance(g0.test.ops[0], ast.Is) \
+        and isinstance(g0.test.comparators[0], ast.Constant) and g0.test.comparators[0].value is None
+    env = g0.body[0].value
+    if not (ok_test and isinstance(env, ast.Call) and _dotted(env.func) == "environ.get" and len(env.args) == 2 and isinstance(env.args[0], ast.Constant)
+            and isinstance(env.args[1], ast.Call) and _dotted(env.args[1].func) == "path.join"
+            and all(isinstance(a, ast.Constant) and isinstance(a.value, str) for a in env.args[1].args)):
+        raise TranslateError("%s:get_data_home: default resolution outside the grammar" % fname)
+    envvar = env.args[0].value
+    default = "/".join(a.value for a in env.args[1].args)
+    exp = gb[1].value
+    if not (isinstance(exp, ast.Call) and _dotted(exp.func) == "path.expanduser" and _name_of(exp.args[0]) == "data_home"):
+        raise TranslateError("%s:get_data_home: expanduser step changed" % fname)
+    out = ["(** GENERATED by tools/translate.py from load_dataset / get_data_home in /repo/src/traffic_weaver/datasets/_base.py — do not edit. *)",
+           "From Coq Require Import String Ascii.", "Open Scope string_scope.", "",
+           "Fixpoint gen_replace (a b : ascii) (s : string) : string :=",
+           "  match s with EmptyString => EmptyString | String c s' => String (if Ascii.eqb c a then b else c) (gen_replace a b s') end.", "",
+           "(** dataset.startswith(%r) ? f'%s{dataset.replace(%r, %r)}' : f'%s{dataset.replace(%r, %r)}' *)" % (fam, p1, a1, b1, p2, a2, b2),
+           "Definition gen_fun_name (dataset : string) : string :=",
+           "  if String.prefix %s dataset then %s ++ gen_replace %s%%char %s%%char dataset" % (_cstr(fam), _cstr(p1), _cstr(a1), _cstr(b1)),
+           "  else %s ++ gen_replace %s%%char %s%%char dataset." % (_cstr(p2), _cstr(a2), _cstr(b2)),
+           "Definition gen_unknown_exn : string := %s." % _cstr(unknown_exn),
+           "(** get_data_home: explicit argument, else the environment variable, else the default (then expanduser, makedirs) *)",
+           "Definition gen_env_var : string := %s." % _cstr(envvar),
+           "Definition gen_default_home : string := %s." % _cstr(default),
+           "Definition gen_data_home (arg env : option string) : string :=",
+           "  match arg with Some d => d | None => match env with Some d => d | None => gen_default_home end end.", ""]
+    return "\n".join(out)
+
+
 # MAIN-BLOCK (keep last)
 if __name__ == "__main__":
     import sys
